@@ -77,9 +77,17 @@ impl<T> Seq<T> {
             None => panic!("index out of bounds"),
         }
     }
+    /// Store into an inline slot that is `None` by the representation invariant (slots >= len are
+    /// empty) WITHOUT running drop glue for the old value: a plain assignment makes the symbolic
+    /// executor walk the whole destructor of `T` under a guard it cannot always fold.
+    #[inline]
+    fn put(slot: &mut Option<T>, v: Option<T>) {
+        debug_assert!(slot.is_none());
+        std::mem::forget(std::mem::replace(slot, v));
+    }
     pub fn push(&mut self, t: T) {
         if self.len < INLINE {
-            self.inl[self.len] = Some(t);
+            Self::put(&mut self.inl[self.len], Some(t));
         } else {
             self.spill.push(t);
         }
@@ -121,13 +129,13 @@ impl<T> Seq<T> {
         let mut j = i;
         while j + 1 < INLINE && j + 1 < self.len {
             let next = self.inl[j + 1].take();
-            self.inl[j] = next;
+            Self::put(&mut self.inl[j], next);
             j += 1;
         }
         // pull the first spilled element into the last inline slot
         if self.len > INLINE {
             let first = self.spill.remove(0);
-            self.inl[INLINE - 1] = Some(first);
+            Self::put(&mut self.inl[INLINE - 1], Some(first));
         }
         self.len -= 1;
         out
@@ -266,11 +274,13 @@ impl<'a, T> Iterator for SeqIterMut<'a, T> {
 
 pub struct IndexMap<K, V> {
     entries: Seq<(K, V)>,
+    /// key of the vacant entry currently handed out by `entry()` (see `mod stash`)
+    pending_key: Option<K>,
 }
 
 impl<K: Clone, V: Clone> Clone for IndexMap<K, V> {
     fn clone(&self) -> Self {
-        IndexMap { entries: self.entries.clone() }
+        IndexMap { entries: self.entries.clone(), pending_key: None }
     }
 }
 
@@ -389,7 +399,7 @@ impl<'a, K, V> Iterator for ValuesMut<'a, K, V> {
 
 impl<K, V> IndexMap<K, V> {
     pub const fn new() -> Self {
-        Self { entries: Seq::new() }
+        Self { entries: Seq::new(), pending_key: None }
     }
     pub fn with_capacity(_n: usize) -> Self {
         Self::new()
@@ -561,11 +571,68 @@ impl<K: Hash + Eq, V> IndexMap<K, V> {
         }
     }
     pub fn entry(&mut self, k: K) -> Entry<'_, K, V> {
+        let slot = stash::put(self as *mut IndexMap<K, V> as *mut ());
         match self.find(&k) {
-            Some(i) => Entry::Occupied(OccupiedEntry { map: self, index: i }),
-            None => Entry::Vacant(VacantEntry { map: self, key: k }),
+            Some(i) => Entry::Occupied(OccupiedEntry { slot, index: i, _m: std::marker::PhantomData }),
+            None => {
+                // the key does not travel through the enum either (same union problem)
+                std::mem::forget(std::mem::replace(&mut self.pending_key, Some(k)));
+                Entry::Vacant(VacantEntry { slot, _m: std::marker::PhantomData })
+            }
         }
     }
+}
+
+/// The entry types do NOT carry the `&mut IndexMap` inside the `Entry` enum: Kani lowers a
+/// data-carrying enum to a tag plus a union, and a pointer that travels through a union loses its
+/// provenance in CBMC (every later access through it becomes a case split over all objects; measured:
+/// two `entry().or_default().push_back()` calls exhausted 8 GB, `get_mut().push_back()` took 1 s).
+/// The map pointer is parked in a small per-thread table instead and the entry carries the table
+/// index; the `'a` borrow in `PhantomData` keeps the usual exclusivity, so this is sound as long as
+/// at most `stash::SLOTS` entries are alive at once per thread.
+mod stash {
+    pub const SLOTS: usize = 4;
+    // Under Kani (single-threaded by construction) a plain static keeps the pointer a first-class
+    // value for the symbolic executor; natively the table is per thread.
+    #[cfg(kani)]
+    mod imp {
+        use super::SLOTS;
+        static mut PTRS: [*mut (); SLOTS] = [std::ptr::null_mut(); SLOTS];
+        static mut NEXT: usize = 0;
+        pub fn put(p: *mut ()) -> usize {
+            unsafe {
+                let i = NEXT;
+                NEXT = (i + 1) % SLOTS;
+                PTRS[i] = p;
+                i
+            }
+        }
+        pub fn get(i: usize) -> *mut () {
+            unsafe { PTRS[i] }
+        }
+    }
+    #[cfg(not(kani))]
+    mod imp {
+        use super::SLOTS;
+        use std::cell::Cell;
+        thread_local! {
+            static PTRS: [Cell<*mut ()>; SLOTS] = const { [const { Cell::new(std::ptr::null_mut()) }; SLOTS] };
+            static NEXT: Cell<usize> = const { Cell::new(0) };
+        }
+        pub fn put(p: *mut ()) -> usize {
+            let i = NEXT.with(|n| {
+                let i = n.get();
+                n.set((i + 1) % SLOTS);
+                i
+            });
+            PTRS.with(|t| t[i].set(p));
+            i
+        }
+        pub fn get(i: usize) -> *mut () {
+            PTRS.with(|t| t[i].get())
+        }
+    }
+    pub use imp::{get, put};
 }
 
 pub enum Entry<'a, K, V> {
@@ -573,51 +640,76 @@ pub enum Entry<'a, K, V> {
     Vacant(VacantEntry<'a, K, V>),
 }
 pub struct OccupiedEntry<'a, K, V> {
-    map: &'a mut IndexMap<K, V>,
+    slot: usize,
     index: usize,
+    _m: std::marker::PhantomData<&'a mut IndexMap<K, V>>,
 }
 pub struct VacantEntry<'a, K, V> {
-    map: &'a mut IndexMap<K, V>,
-    key: K,
+    slot: usize,
+    _m: std::marker::PhantomData<&'a mut IndexMap<K, V>>,
+}
+impl<'a, K, V> Drop for VacantEntry<'a, K, V> {
+    fn drop(&mut self) {
+        // an entry that was not used gives its key up
+        let map = unsafe { &mut *(stash::get(self.slot) as *mut IndexMap<K, V>) };
+        map.pending_key = None;
+    }
 }
 
 impl<'a, K, V> OccupiedEntry<'a, K, V> {
+    #[inline]
+    fn map(&self) -> &'a mut IndexMap<K, V> {
+        unsafe { &mut *(stash::get(self.slot) as *mut IndexMap<K, V>) }
+    }
     pub fn get(&self) -> &V {
-        &self.map.entries.at(self.index).1
+        &self.map().entries.at(self.index).1
     }
     pub fn get_mut(&mut self) -> &mut V {
-        &mut self.map.entries.at_mut(self.index).1
+        &mut self.map().entries.at_mut(self.index).1
     }
     pub fn into_mut(self) -> &'a mut V {
-        &mut self.map.entries.at_mut(self.index).1
+        &mut self.map().entries.at_mut(self.index).1
     }
     pub fn index(&self) -> usize {
         self.index
     }
     pub fn key(&self) -> &K {
-        &self.map.entries.at(self.index).0
+        &self.map().entries.at(self.index).0
     }
     pub fn insert(&mut self, v: V) -> V {
-        std::mem::replace(&mut self.map.entries.at_mut(self.index).1, v)
+        std::mem::replace(&mut self.map().entries.at_mut(self.index).1, v)
     }
     pub fn swap_remove(self) -> V {
-        self.map.entries.swap_remove(self.index).1
+        self.map().entries.swap_remove(self.index).1
     }
     pub fn shift_remove(self) -> V {
-        self.map.entries.remove(self.index).1
+        self.map().entries.remove(self.index).1
     }
 }
 impl<'a, K, V> VacantEntry<'a, K, V> {
+    #[inline]
+    fn map(&self) -> &'a mut IndexMap<K, V> {
+        unsafe { &mut *(stash::get(self.slot) as *mut IndexMap<K, V>) }
+    }
     pub fn insert(self, v: V) -> &'a mut V {
-        self.map.entries.push((self.key, v));
-        let n = self.map.entries.len() - 1;
-        &mut self.map.entries.at_mut(n).1
+        let map = self.map();
+        std::mem::forget(self);
+        let key = match map.pending_key.take() {
+            Some(k) => k,
+            None => panic!("vacant entry without key"),
+        };
+        map.entries.push((key, v));
+        let n = map.entries.len() - 1;
+        &mut map.entries.at_mut(n).1
     }
     pub fn index(&self) -> usize {
-        self.map.entries.len()
+        self.map().entries.len()
     }
     pub fn key(&self) -> &K {
-        &self.key
+        match self.map().pending_key.as_ref() {
+            Some(k) => k,
+            None => panic!("vacant entry without key"),
+        }
     }
 }
 impl<'a, K, V> Entry<'a, K, V> {
